@@ -1454,6 +1454,7 @@ where
         // Handle clean_start flag
         if packet.clean_start() {
             self.clear_store_related();
+            self.new_session_at_connect = true;
         }
 
         // Process properties
@@ -2765,6 +2766,7 @@ where
                 }
                 if packet.clean_start() {
                     self.clear_store_related();
+                    self.new_session_at_connect = true;
                 }
                 packet.props().iter().for_each(|prop| match prop {
                     Property::TopicAliasMaximum(p) => {
